@@ -145,6 +145,9 @@ def apply_mask(
   elif types.is_array_like(masks) and types.is_array_like(items):
     if hasattr(masks, '__array__') and getattr(masks, 'dtype') == bool:
       if replace_false_with != DEFAULT_FILTER:
+        items = np.asarray(items)
+        # The mask selects along the leading (batch) axes of the items.
+        masks = np.reshape(masks, masks.shape + (1,) * (items.ndim - masks.ndim))
         return np.where(masks, items, replace_false_with)
       else:
         return np.asarray(items)[masks]
